@@ -38,9 +38,11 @@ What the model says the code does and a reader might not expect (all covered by 
 Out of scope of these theorems (the model handles them, the harness compares them byte for byte):
 entries whose offset lies outside the legacy primary ("bad": rewritten to 0 in place, removed through a
 pool that index.Open flushes itself; NOT removed in the single-file case), torn tails, a bit size that
-differs from the legacy header's (continues with translateIndex), interrupted upgrades (D14).
+differs from the legacy header's (continues with translateIndex).
+Interrupted upgrades: last section (`C10_upgrade_resume_partial`, the D14 witnesses).
 -/
 import Sth.Lemmas.C10Whole
+import Sth.Lemmas.C10Resume
 
 namespace Sth
 
@@ -283,5 +285,141 @@ example : (upgradeStore exCfg10 exC10.dir).map (fun d =>
       | _ => []) =
     some [some [7, 7, 7], some [], some [1, 2], none, some [8, 8, 8, 8], some [6, 6], some [6, 6]] := by
   decide +kernel
+
+/-! ### Interrupted upgrades (M4)
+
+`upgradeSteps c L` (Sth/Lemmas/C10Steps.lean) lists the directories an upgrading OpenStore goes through,
+one per point where it can be interrupted between two file-system operations (the verifhook points);
+`openU c ud` is OpenStore on ANY such directory (legacy files, numbered files, `.tmp` work copies and
+`.remapped` markers).  `resumeCheck c L` opens every intermediate directory again and compares with the
+uninterrupted upgrade.
+
+The full claim "interrupted at any step, opening again completes it with the same result" is FALSE in
+the code (known finding D14), so the general theorem is the partial one below; the windows where it
+fails are exhibited on concrete stores by evaluation. -/
+
+/-- C10, resume (partial; the full statement — for EVERY element of `upgradeSteps c C.dir` — is false, see
+    the D14 witnesses below).  For every well-formed legacy store, opening again
+    (a) after the primary phase (numbered primary files and header written), with the old primary file
+        already removed (`dl = none`) or still there (`dl = some _`: interrupted between writing the header
+        and removing the file — it then stays forever, `ud'.data = dl`), the old index untouched;
+    (b) after the index was chunked and its header written, with the old index file already removed or still
+        there (`il`; it is chunked again into the same files);
+    ends in the same memory state and the same directory as the uninterrupted upgrade (index files equal
+    file by file), and the resumed store refines the same map `C.spec`.
+    (c) Once both headers exist and the index header carries the primary file size, OpenStore is the ordinary
+        open whatever work files, markers or legacy primary are left (`openU_plain`). -/
+theorem C10_upgrade_resume_partial (c : Cfg) (hc : c.Legal) (hk : c.kind = .mh) (C : LegacyC)
+    (hwf : LegacyWF c C) (ops : List SOp) (ha : ∀ op ∈ ops, op.isC02 = true)
+    (hkeys : KeysOK .mh (C.keyOps ++ ops))
+    (hn : C.recs.length + C.gens.length + 1 + ops.length < 1073741824)
+    (hB : specW C.spec + (ops.map SOp.bytes).sum < two31)
+    (dl il : Option Bytes) (hil : il = none ∨ il = some C.dir.index) :
+    ∃ d m, upgradeOpen c C.dir [] = some (d, m) ∧
+      ∀ ud, (ud = C.afterPrimary c dl ∨ ud = C.afterIndexChunked c dl il) →
+        ∃ d', openU c ud [] [] = some ({ data := dl, disk := d' }, m) ∧
+          d' = { d with ifiles := d'.ifiles } ∧ (∀ f, d'.ifiles.get? f = d.ifiles.get? f) ∧
+          (runS ⟨c, m, d'⟩ ops).2 = (specRun .mh c.imm C.spec ops).2 := by
+  obtain ⟨ifs, files', h1, _, _, x, _⟩ := upgrade_ctx hc hk hwf ops hkeys (by omega) (by omega)
+  have hk' : ∀ op ∈ ops, ∀ k, op.keyOf = some k → ∀ dig, keyClass .mh k = .ok dig →
+      (k, dig) ∈ digestsOf .mh (C.keyOps ++ ops) :=
+    fun op ho k hkey dig hcls => mem_digestsOf (List.mem_append_right _ ho) hkey hcls
+  refine ⟨C.diskU c ifs, C.memU c ifs, h1, ?_⟩
+  intro ud hud
+  have key : ∃ ifs', openU c ud [] [] = some ({ data := dl, disk := C.diskU c ifs' }, C.memU c ifs') ∧
+      (∀ f, f ≤ C.lastI c → ifs'.get? f = some (logBytes (C.lgU c f))) ∧
+      (∀ f, C.lastI c < f → ifs'.get? f = none) := by
+    rcases hud with rfl | rfl
+    · exact resume_after_primary hc hk x.hwf x.hn1 x.hn2 dl
+    · exact resume_after_index_chunked hc hk x.hwf x.hn1 x.hn2 dl il hil
+  obtain ⟨ifs', g1, g2, g3⟩ := key
+  have heq := ifs_unique x.hifs x.hno g2 g3
+  have x' : Ctx c (digestsOf .mh (C.keyOps ++ ops)) C ifs' :=
+    ⟨x.hc, x.hk, x.hU, x.hwf, x.hn1, x.hn2, g2, g3⟩
+  refine ⟨C.diskU c ifs', ?_, rfl, heq, ?_⟩
+  · rw [g1, memU_congr heq]
+  · have := run_U x' ops ha hk' hn hB
+    rw [← memU_congr heq]
+    exact this
+
+/-- (c) as a property theorem -/
+theorem C10_completed_opens_plainly (c : Cfg) (hk : c.kind = .mh) (ud : UDir) (order forder : List Nat)
+    (hidx : ud.index = none) (ph : PriHeader) (hph : ud.disk.phdr = some ph)
+    (ih : IdxHeader) (hih : ud.disk.ihdr = some ih) (hpfs : ih.pfs ≠ 0) :
+    openU c ud order forder =
+      match openStoreR c ud.disk with
+      | (d', .ok m) => some ({ ud with disk := d' }, m)
+      | (_, .error _) => none :=
+  openU_plain c hk ud order forder hidx ph hph ih hih hpfs
+
+/-- the intermediate directory tagged `n` -/
+def stepNamed (c : Cfg) (L : LegacyDir) (n : String) : Option UDir :=
+  ((upgradeSteps c L).find? (·.1 == n)).map (·.2)
+
+/-- the steps where opening again fails or does not end in the store of the uninterrupted upgrade -/
+def resumeFailures (c : Cfg) (L : LegacyDir) : List String :=
+  ((resumeCheck c L).filter fun r => !(r.2.1 && r.2.2.1)).map (·.1)
+
+/-! On the well-formed example (27 intermediate directories): the directories of the theorem are
+    intermediate directories; every step resumes to the same store EXCEPT the window between creating
+    the `.remapped` marker of index file 1 and renaming its rewritten copy (D14, first half): the resumed
+    open skips the file, stamps the header, and the entries of that file keep their LINEAR offsets — three
+    of the five live keys are lost (file 0 is not affected only because its records sit in primary file 0,
+    where linear and new offsets coincide). -/
+
+example : (upgradeSteps exCfg10 exC10.dir).length = 27 := by decide +kernel
+example : stepNamed exCfg10 exC10.dir "upgrade.primary.header_written" =
+    some (exC10.afterPrimary exCfg10 (some (mdata exC10.marked))) := by decide +kernel
+example : stepNamed exCfg10 exC10.dir "upgrade.primary.old_removed" = some (exC10.afterPrimary exCfg10 none) := by
+  decide +kernel
+example : stepNamed exCfg10 exC10.dir "upgrade.index.header_written" =
+    some (exC10.afterIndexChunked exCfg10 none (some exC10.dir.index)) := by decide +kernel
+example : stepNamed exCfg10 exC10.dir "upgrade.index.old_removed" =
+    some (exC10.afterIndexChunked exCfg10 none none) := by decide +kernel
+example : (upgradeSteps exCfg10 exC10.dir).getLast?.map (·.2.disk) = upgradeStore exCfg10 exC10.dir := by
+  decide +kernel
+
+/-- D14 (marker before rename), witness -/
+theorem C10_D14_marker_window :
+    resumeFailures exCfg10 exC10.dir = ["remap.marker_created 1"] ∧
+    ((stepNamed exCfg10 exC10.dir "remap.marker_created 1").bind fun ud => openU exCfg10 ud [] []).map
+      (fun um => exRecs10.map fun kv => match (storeGet um.2 um.1.disk kv.1).2 with
+        | .found v => some v
+        | _ => none) =
+      some [some [7, 7, 7], some [], some [1, 2], none, none, none, none] := by
+  refine ⟨by decide +kernel, by decide +kernel⟩
+
+/-- interrupted between writing the primary header and removing the old primary, the resumed open is
+    correct but never removes `storethehash.data` (space leak; `leftovers.1`) -/
+example : ((resumeCheck exCfg10 exC10.dir).find? (·.1 == "upgrade.primary.header_written")).map
+    (fun r => r.2.1 && r.2.2.1 && r.2.2.2.1) = some true := by decide +kernel
+
+/-! A store with an entry whose offset lies outside the legacy primary (record 5, "bad"; not covered by
+    `LegacyWF`).  The uninterrupted upgrade rewrites the entry to offset 0 in place and removes it through
+    the pool that index.Open flushes before it returns.  Interrupted anywhere between the rename of that
+    file and the end of Open (D14, second half), the pool is lost: the resumed open skips the file (or finds
+    the header already stamped) and the entry stays, pointing at offset 0 — the first record of the store. -/
+
+def exBadRecs10 : List (Bytes × Bytes) :=
+  [([18, 6, 1, 2, 3, 4, 5, 6], [7, 7, 7]), ([18, 6, 1, 2, 3, 4, 5, 7], []), ([18, 6, 2, 2, 9, 9, 9, 9], [1, 2]),
+   ([18, 6, 1, 9, 9, 9, 9, 9], [5]), ([18, 6, 3, 1, 1, 1, 1, 1], [8, 8, 8, 8]), ([18, 6, 1, 3, 3, 3, 3, 3], [4]),
+   ([18, 6, 4, 4, 4, 4, 4, 4], [6, 6])]
+def exBad10 : LegacyDir := legacyOf 8 exBadRecs10 [3] [5] [] true
+
+/-- D14 (removal pool lost), witness -/
+theorem C10_D14_pool_lost :
+    resumeFailures exCfg10 exBad10 =
+      ["remap.marker_created 0", "remap.renamed 0", "remap.copied 1", "remap.rewritten 1",
+       "remap.marker_created 1", "remap.renamed 1", "remap.header_written", "remap.markers_removed"] ∧
+    -- uninterrupted: the bad entry is gone from the index
+    (upgradeOpen exCfg10 exBad10 []).map (fun dm => match idxGet dm.2 dm.1 [1, 3, 3, 3, 3, 3] with
+      | .ok r => some r
+      | .error _ => none) = some (some none) ∧
+    -- interrupted after the rename of file 0: it stays, re-pointed at offset 0
+    ((stepNamed exCfg10 exBad10 "remap.renamed 0").bind fun ud => openU exCfg10 ud [] []).map
+      (fun um => match idxGet um.2 um.1.disk [1, 3, 3, 3, 3, 3] with
+        | .ok r => some r
+        | .error _ => none) = some (some (some ⟨0, 9⟩)) := by
+  refine ⟨by decide +kernel, by decide +kernel, by decide +kernel⟩
 
 end Sth
